@@ -592,8 +592,10 @@ func contentList(computer *ComputedStyle, values pr.ContentProperties) (pr.Conte
 			computedValue = value
 		case "attr()":
 			attr, ok := value.Content.(pr.AttrData)
-			if !ok || attr.TypeOrUnit != "string" {
-				panic(fmt.Sprintf("invalid attr() property : %v", value.Content))
+			if !ok || (attr.TypeOrUnit != "string" && attr.TypeOrUnit != "url") {
+				// the validator also accepts attr(name url), which computes
+				// to an url (an image) ; nothing else is meaningful here
+				return nil, fmt.Errorf("invalid attr() property : %v", value.Content)
 			}
 			var err error
 			computedValue, err = computeAttrFunction(computer, attr)
